@@ -122,16 +122,36 @@ SIDE_EFFECT_FREE = {"Integer", "Boolean", "Null", "AccessVariable"}
 
 def _simple_set(ck, key, p):
     """The initializer kinds compiled once (array opcode) must be side-effect free by construction:
-    evaluating them once or n times is indistinguishable."""
-    import re
+    evaluating them once or n times is indistinguishable. The condition that selects the single-evaluation path is
+    read structurally: a disjunction in which EVERY disjunct pins the initializer to a side-effect-free kind (further
+    conjuncts only narrow it); a disjunct about anything else — the size, a flag — lets arbitrary initializers through."""
+    def ors(t):
+        if t[0] == "app" and t[1] == "or":
+            return [x for a in t[2] for x in ors(a)]
+        return [t]
+
+    def ands(t):
+        if t[0] == "app" and t[1] == "and":
+            return [x for a in t[2] for x in ands(a)]
+        return [t]
     kinds = set()
+    loose = []
+    at = ""
     for e in p["eff"]:
         if e["k"] == "assume" and e["args"][1] == TRUE and "is_variant(self.value" in fmt_term(e["args"][0]):
-            kinds |= set(re.findall(r"is_variant\(self\.value, '(\w+)'\)", fmt_term(e["args"][0])))
+            at = e["at"]
+            for d in ors(e["args"][0]):
+                ks = [c[2][1][1] for c in ands(d) if c[0] == "app" and c[1] == "is_variant" and c[2][0] == ("var", "self.value")]
+                if ks:
+                    kinds |= set(ks)
+                else:
+                    loose.append(fmt_term(d)[:80])
     bad = sorted(kinds - SIDE_EFFECT_FREE)
-    ck.ob("R13.arrayrewrite", key + "|kinds evaluated once", bool(kinds) and not bad, e["at"] if p["eff"] else "",
-          "initializer kinds compiled to a single evaluation: %s%s" % (sorted(kinds), "" if not bad else
-          " — %s can have side effects, which must happen once per element" % bad))
+    ok = bool(kinds) and not bad and not loose
+    ck.ob("R13.arrayrewrite", key + "|kinds evaluated once", ok, at,
+          "initializer kinds compiled to a single evaluation: %s%s%s" % (sorted(kinds), "" if not bad else
+          " — %s can have side effects, which must happen once per element" % bad, "" if not loose else
+          " — the single-evaluation path is also taken when %s, whatever the initializer is: it is then evaluated before the array exists and only once" % loose))
 
 
 def _events(items, loops, buf):
